@@ -122,6 +122,18 @@ def refs_paired(r, F):
                 per_notifier = True
     r.require(per_notifier, ii, "one-handle-per-notifier", "each notifier is sent its own RawCacheEntry built inside the loop",
               "insert_inner does not build one RawCacheEntry per notified waiter (emplace counted notifiers.len()+1 references)", ln=ii.lo)
+    # ... for EVERY notifier: emplace reserved one reference per element of the vector, so every iteration builds a handle (whose drop gives the reference back
+    # even when the waiter is gone) — no `continue` that skips an element
+    every = bool(nexts) and bool(aggs)
+    for nb in nexts:
+        for (sb_, pl, tm, other) in tables.variant_switch_on(ii, nb.idx):
+            if "Some" in tm:
+                loop_aggs = [ab for (ab, s_) in aggs if nb.idx in ii.reachable([ab]) and ab in ii.reachable([nb.idx])]
+                reach = ii.reachable([tm["Some"]], avoid=loop_aggs)
+                every = every and bool(loop_aggs) and not (set(ii.returns() + [nb.idx]) & reach)
+    r.require(every, ii, "a handle for every notifier", "from the Some edge of the notifier loop every path builds a RawCacheEntry before the next element",
+              "insert_inner skips some notifiers without building their RawCacheEntry (e.g. waiters whose receiver is gone): emplace counted one reference for each of them, so the record keeps "
+              "references nobody will ever drop — under LRU it stays pinned and can never be evicted", ln=ii.lo)
     ret = [ab for (ab, s) in aggs if s.place.local == 0]
     r.require(bool(ret) and ii.must_pass(0, ret), ii, "one-handle-returned", "the returned handle is built on every path",
               "insert_inner does not return a RawCacheEntry on every path", ln=ii.lo)
